@@ -153,6 +153,8 @@ def check(rep, model, tier):
             keep.append(i)
     rep.instances[before:] = [i for i in keep if i['rule'] == 'INDEX-AGREE' or i['status'] != 'discharged' or True]
     rep.rule('ARG-NAME', 'BycycleGroup.fit binds its settings to compute_features_2d by name (shared with C14)')
+    rep.rule('NO-STALE', 'BycycleGroup.fit, entered with every non-setting attribute unknown (earlier tables, the earlier array, bookkeeping), calls compute_features_2d exactly once and '
+                         'independently of that state: no refit shortcut or cached result can stand in for the analysis (shared with C14)')
     rep.floor('rule instances', len(rep.instances), 30)
 
 
